@@ -379,7 +379,11 @@ def execute(plan):
     snap_schema = U.snapshot(ctx.schema)
     snap_values = [U.snapshot(v) for v in ctx.values]
     if U.snapshot(ctx.schema) != snap_schema or [U.snapshot(v) for v in ctx.values] != snap_values:
-        return common.skip_result('snapshot-not-pure')
+        # the snapshot only encodes (BER, DER) and compares: if taking it twice gives two
+        # answers, a codec call or a comparison has changed the object it was given
+        v = W.Violation('observing-changes-object', where='snapshot-twice')
+        return common.violation_result(v, ['observing-changes-object', None, None, None], trace, ctr, None, None,
+                                       {'kind': 'file'}, None)
     scope0 = str(debug.scope)
     sink = Sink()
     sched = plan['schedule']
